@@ -3,8 +3,9 @@
 decorators differ from the recorded ones as outside its contract (UNDECIDED): a contract is about the function body"""
 import sys, json, glob, importlib, ast, os
 sys.path.insert(0, '/verif'); sys.dont_write_bytecode = True
-from pyvc.engine import Source
+from pyvc.engine import Source, loop_shapes
 out = {}
+loops = {}
 for f in sorted(glob.glob('/verif/contracts/*.py')):
     m = os.path.basename(f)[:-3]
     if m in ('__init__', 'streams'):
@@ -13,5 +14,9 @@ for f in sorted(glob.glob('/verif/contracts/*.py')):
     for c in getattr(mod, 'CONTRACTS', []):
         src = Source(sys.argv[1] if len(sys.argv) > 1 else '/repo', c.file, c.qualname)
         out[f'{c.file}::{c.qualname}'] = [ast.unparse(x) for x in getattr(src.node, 'decorator_list', [])]
+        loops[f'{c.file}::{c.qualname}'] = loop_shapes(src.node)
 json.dump(out, open('/verif/contracts/decorators.json', 'w'), indent=1, sort_keys=True)
-print(len(out), 'functions')
+# the shape of every loop an invariant was written against (see pyvc/verify.py: a failed obligation of a function whose loops were
+# restructured is a failed proof, not a violation)
+json.dump({k: v for k, v in loops.items() if v}, open('/verif/contracts/loops.json', 'w'), indent=1, sort_keys=True)
+print(len(out), 'functions,', sum(1 for v in loops.values() if v), 'with loops')
